@@ -568,6 +568,10 @@ def tdb_rules(ctx, A):
     if Aexpr is None or packed[0] not in ('var', 'arg'):
         return
     psw = [s for s in tdb.switches() if strip(s['cond']) == packed]
+    if len(psw) > 1 and AL[0] == 'var':
+        # several tests of `packed` (e.g. the packed/align exclusion written as its own statement): the one that chooses the alignment
+        one_defs = [d_[0] for d_ in tdb.defs().get(AL[1], []) if is_int(tdb.expr_of_def(d_))]
+        psw = [s for s in psw if any(lab is True and any(tdb.dominates(tgt, b_) for b_ in one_defs) for lab, tgt in s['edges'])]
     if len(psw) != 1:
         ctx.fail_closed(['C03'], 'R-GUARD', 'TDB|packed-switch', 'expected one branch on `packed`, found %d' % len(psw), where)
         return
@@ -584,8 +588,10 @@ def tdb_rules(ctx, A):
     if a_ok:
         first, second = strip(Astr[2][0][2][0]), strip(Astr[2][0][2][1])
         # precedence: the explicit #[align(N)] first, the sole field's alignment only as a fallback
+        from r_function import attr_assignments as _aa
+        align_state = {l_ for lit_, as_, _sp in _aa(tdb) if lit_ == 'align' for l_ in as_ if tdb.local_ty(l_) == 'std::option::Option<usize>'}
         explicit_first = first[0] == 'var' and tdb.local_ty(first[1]) == 'std::option::Option<usize>' and not find_calls(first, 'then') and \
-            any(any(isinstance(x, tuple) and x[0] == 'payload' and x[2] == 'IntLiteral' for x in walk(d)) for d in tdb.init_of(first[1]))
+            (any(any(isinstance(x, tuple) and x[0] == 'payload' and x[2] == 'IntLiteral' for x in walk(d)) for d in tdb.init_of(first[1])) or first[1] in align_state)
         sole, sole_det = sole_field_alignment(tdb, second)
         a_ok = explicit_first and sole
     ctx.ob(['C02', 'C03', 'C20'], 'R-EXPR', 'TDB|alignment-selection', a_ok, 'effective alignment = explicit align, else the sole field\'s alignment, else the pointer size: %s (%s)' % (show(Astr)[:120], sole_det), where)
@@ -672,9 +678,17 @@ def tdb_rules(ctx, A):
            'the effective alignment must be tested to be a power of two (rustc accepts nothing else in align(N); N = 0 divides by zero) before Ok(Some(..)); ' +
            ('found' if ok15 else 'no such test dominates the success return'), g15[0].where() if g15 else where)
     # G6 packed & align
+    # (the test may hang off the alignment-choosing branch on `packed` or off a separate `if packed && align.is_some()`)
+    all_psw = [s for s in tdb.switches() if strip(s['cond']) == packed]
+    all_ptrue = [(s['block'], tgt) for s in all_psw for lab, tgt in s['edges'] if lab is True]
     g6 = [g for g in gs if g.kind == 'reject' and g.pred[0] == 'is_some' and any(isinstance(x, tuple) and x[0] == 'var' and tdb.local_ty(x[1]) == 'std::option::Option<usize>' for x in walk(g.pred))
-          and any(tdb.dominates(t, g.block) for (_, t) in ptrue)]
-    ctx.ob(['C03', 'C17'], 'R-GUARD', 'G6|packed-and-align-rejected', len(g6) == 1 and covers_all_paths(tdb, g6[0], exempt_edges=pfalse),
+          and any(tdb.dominates(t, g.block) for (_, t) in all_ptrue)]
+    pfalse6 = pfalse
+    if len(g6) == 1:
+        own_sw = [s for s in all_psw if any(lab is True and tdb.dominates(tgt, g6[0].block) for lab, tgt in s['edges'])]
+        if own_sw:
+            pfalse6 = [(own_sw[0]['block'], tgt) for lab, tgt in own_sw[0]['edges'] if lab is False]
+    ctx.ob(['C03', 'C17', 'C02'], 'R-GUARD', 'G6|packed-and-align-rejected', len(g6) == 1 and covers_all_paths(tdb, g6[0], exempt_edges=pfalse6),
            'packed together with an explicit align is always rejected', g6[0].where() if g6 else where)
     # alignment guards are absent on the packed branch: no reject guard mentioning alignment/lcm dominated by packed-true
     stray = [g for g in gs if g.kind == 'reject' and any(tdb.dominates(t, g.block) for (_, t) in ptrue) and (find_calls(g.pred, 'alignment') or find_calls(g.pred, 'lcm') or (cmp_parts(g.pred) and 'Rem' in show(g.pred)))]
